@@ -19,7 +19,7 @@ from . import _rt
 
 ID = "C01"
 LEVEL = "exploration"
-ENGINE = "hypothesis"
+ENGINE = "hypothesis (+ atheris/libFuzzer coverage guidance in 4 thorough shards)"
 TECHNIQUE = "property-based round-trip testing (dump / print_config / save -> parse) over generated typed parsers and look-alike strings"
 LEVEL_TEXT = ("Thousands of generated (parser, accepted configuration) pairs per run; each configuration is serialised in every dump "
               "format, through --print_config and through save, parsed back with the same parser and compared type for type. "
@@ -164,7 +164,8 @@ def body(ctx):
 def plan(tier):
     if tier == "quick":
         return [{"n": 500, "depth": 2} for _ in range(16)]
-    return [{"n": 4000, "depth": 2 if i % 2 else 3} for i in range(16)]
+    # thorough: 12 shards of plain generated search + 4 in which libFuzzer's coverage feedback (atheris) steers the same generator
+    return [{"n": 4000, "depth": 2 if i % 2 else 3} for i in range(12)] + [{"kind": "atheris", "n": 6000, "depth": 2} for _ in range(4)]
 
 
 def run_shard(spec, ctx):
@@ -173,7 +174,13 @@ def run_shard(spec, ctx):
     from . import _kinds
 
     main = _rt.case_strategy(spec["depth"])
-    run_given(ctx, st.integers(0, 5).flatmap(lambda i: _kinds.case_strategy() if i == 0 else main), body(ctx), spec["n"])
+    strategy = st.integers(0, 5).flatmap(lambda i: _kinds.case_strategy() if i == 0 else main)
+    if spec.get("kind") == "atheris":
+        from ..core import run_atheris
+
+        ctx.cls("engine:atheris")
+        return run_atheris(ctx, strategy, body(ctx), spec["n"], flush_every=500)
+    run_given(ctx, strategy, body(ctx), spec["n"])
 
 
 def health(tier, evaluations, nontrivial, classes):
